@@ -356,6 +356,81 @@ def run_one(args):
 
 _SUBJ = {}
 
+LITERAL_TEXTS = ['Pay Bob 10 EUR \ufffd signed by Alice', 'na\u00efve caf\u00e9 \u2603', '\ufffd', 'plain ascii text\nsecond line\n']
+ILL_FORMED = [b'\xff', b'\xe9', b'\xc3', b'\xf0\x9f', b'\x80', b'\xed\xa0\x80', b'\xc0\xaf', b'']
+
+
+def forged_literals(algname, seed):
+    """signed literal MESSAGES (one-pass, literal, signature): the literal packet's octets are exchanged, the other packets kept. The subject
+    verify() hashes is derived from the literal packet by PGPy itself (LiteralData.contents), so a lossy derivation shows here and nowhere in
+    the detached cases. Every forged message must be refused, raise, or verify falsy."""
+    ks = keyset(algname)
+    rnd = random.Random('%s/literal/%s' % (seed, algname))
+    res = {'label': {'alg': algname, 'kind': 'signed-literal-message'}, 'evals': 0, 'outcomes': {}, 'violations': [], 'exempt': [], 'info': {},
+           'distinct': 0, 'controls': 0}
+    L = res['label']
+
+    def note(o):
+        res['evals'] += 1
+        res['outcomes'][o] = res['outcomes'].get(o, 0) + 1
+
+    def verdict(raw):
+        try:
+            m = pgpy.PGPMessage.from_blob(raw)
+            return 'accepted' if ks.pub.verify(m) else 'rejected'
+        except Exception as ex:
+            return 'raised:' + type(ex).__name__
+
+    for text in LITERAL_TEXTS:
+        for subject in (text, text.encode('utf-8')):
+            m = pgpy.PGPMessage.new(subject, compression=pgpy.constants.CompressionAlgorithm.Uncompressed)
+            m |= ks.k.sign(m, created=T0)
+            pk = indep.packets(bytes(m))
+            li = [i for i, (t, b, r) in enumerate(pk) if t == 11]
+            if len(li) != 1:
+                res['violations'].append({'case': dict(L, control='shape'), 'what': 'harness error: signed message has %d literal packets' % len(li)})
+                continue
+            body = pk[li[0]][1]
+            hl = 2 + body[1] + 4
+            head, data = body[:hl], body[hl:]
+            res['controls'] += 1
+            if verdict(bytes(m)) != 'accepted':
+                res['violations'].append({'case': dict(L, control='unmodified signed message'), 'what': 'harness error: positive control rejected'})
+                continue
+            variants = []
+            rep = '\ufffd'.encode('utf-8')
+            for ill in ILL_FORMED:
+                if rep in data:
+                    variants.append(('U+FFFD exchanged for %r' % ill, data.replace(rep, ill)))
+                variants.append(('%r appended' % ill, data + ill)) if ill else None
+                variants.append(('%r inserted' % ill, data[:len(data) // 2] + ill + data[len(data) // 2:])) if ill else None
+            for i in range(len(data)):
+                if data[i] >= 0x80:
+                    variants.append(('non-ASCII octet %d exchanged for 0xff' % i, data[:i] + b'\xff' + data[i + 1:]))
+                    variants.append(('non-ASCII octet %d dropped' % i, data[:i] + data[i + 1:]))
+            for bit in sorted(rnd.sample(range(len(data) * 8), min(len(data) * 8, 48))):
+                d2 = bytearray(data)
+                d2[bit // 8] ^= 1 << (bit % 8)
+                variants.append(('content bit %d flipped' % bit, bytes(d2)))
+            for fmt in (b'b', b'u', b't'):
+                if fmt != head[:1]:
+                    variants.append(('same octets, format octet %r' % fmt, None, fmt + head[1:]))
+            for v in variants:
+                what, d2 = v[0], v[1]
+                h2 = v[2] if len(v) > 2 else head
+                if d2 is None:
+                    d2 = data           # the format octet is not covered by the signature: the signed octets are the same, acceptance is right
+                raw = b''.join(r if i != li[0] else packet(11, h2 + d2) for i, (t, b, r) in enumerate(pk))
+                o = verdict(raw)
+                note(o)
+                if d2 == data:
+                    continue
+                res['distinct'] += 1
+                if o == 'accepted':
+                    res['violations'].append({'case': dict(L, mutation='literal packet octets exchanged (%s)' % what.split(' ')[0], detail={'what': what, 'signed': data.hex(), 'forged': d2.hex()}),
+                                              'what': 'truthy verification of a signed message whose literal octets were never signed: %s; signed %r, forged %r' % (what, data[:40], d2[:40])})
+    return res
+
 
 def make_subject(ks, kind):
     """subject / verifying key for a kind without making a new signature"""
@@ -382,7 +457,9 @@ def component(tier='quick', seed=0, known=()):
     # largest first (RSA MPI regions)
     order = sorted(range(len(tasks)), key=lambda i: -len(tasks[i][2]))
     with ctx.Pool(16) as pool:
+        lit = pool.starmap_async(forged_literals, [(a, seed) for a in algs], chunksize=1)
         out = pool.map(run_one, [tasks[i] for i in order], chunksize=1)
+        out += lit.get()
     out.sort(key=lambda r: (r['label']['alg'], r['label']['kind']))
     violations, known_hits, outcomes, exempt, vclasses = [], [], {}, {}, {}
     evals = distinct = controls = 0
@@ -421,8 +498,9 @@ def component(tier='quick', seed=0, known=()):
     return {'name': 'C01/signature-soundness',
             'bound': '%d PGPy-made signatures (%s) x (%s): every single-bit flip of the version/type/pubalg/hashalg octets, the hashed-subpacket count, '
                      'every hashed-area octet and the MPI region; every single-bit flip of the document / user id, a seeded sample of single-bit flips of '
-                     'user attribute, primary-key and subkey packets; the listed subject, key and issuer substitutions'
-                     % (len(tasks), ', '.join(algs), ', '.join(kinds)),
+                     'user attribute, primary-key and subkey packets; the listed subject, key and issuer substitutions; signed literal messages (%d texts, '
+                     'given as str and as octets) whose literal packet octets are exchanged (U+FFFD for ill-formed UTF-8, insertions, dropped octets, bit flips)'
+                     % (len(tasks), ', '.join(algs), ', '.join(kinds), len(LITERAL_TEXTS)),
             'cases': evals + controls,
             'distinct_nontrivial': distinct,
             'rule': 'one case = one PGPKey.verify call on (subject, signature, key) where exactly one component differs from what was signed; non-trivial = '
